@@ -123,6 +123,8 @@ pub struct Pkg {
     pub raw_last: String,
     /// extra import lines by name (may name missing packages, the package itself, Main, ...)
     pub extra_imports: Vec<String>,
+    /// the last file of the package (if it has >= 2 files) does not declare this import
+    pub omit_import_last: Option<usize>,
 }
 
 #[derive(Clone, Debug, Default)]
@@ -682,7 +684,9 @@ pub fn generate(p: &mut Prng, cfg: &GenCfg) -> Project {
             }
         }
         // functions
-        let nf = if pi == 0 { p.usize(3) } else { 1 + p.usize(4) };
+        // a library may consist of declarations only (types, traits, externs; no function)
+        let decl_only = pi != 0 && (!cur.structs.is_empty() || !cur.enums.is_empty() || !cur.generics.is_empty()) && cur.impls.is_empty() && cur.inherents.is_empty() && !cur.externs && p.chance(1, 5);
+        let nf = if pi == 0 { p.usize(3) } else if decl_only { 0 } else { 1 + p.usize(4) };
         let mut fns: Vec<FnDef> = Vec::new();
         for i in 0..nf {
             let vis = visible_pkgs(&proj, pi, &cur.imports);
@@ -1101,7 +1105,9 @@ impl Project {
                     // a package's imports are the union over its files: every import is declared
                     // in at least one file, not necessarily the first
                     // (imports are checked per file in goml, so every file declares all of them)
-                    let _ = (fi, nf);
+                    if nf >= 2 && fi == nf - 1 && pk.omit_import_last == Some(i) {
+                        continue;
+                    }
                     h.push_str(&format!("import {}\n", self.pkgs[i].name));
                 }
                 for e in &pk.extra_imports {
